@@ -416,6 +416,6 @@ def _(it, a, info):
     f = a[0]; tup = a[1]
     if deref(f) is UNINIT:                      # zero-sized closure / fn item: never materialised in MIR
         st = info['self_ty'].lstrip('&').replace('mut ', '').strip()
-        f = it.zst_value(st, {})
+        f = it.zst_value(st, {})   # substs of the defining frame are unknown here; closures defined in generic fns carry them when materialised
     args = list(tup.f) if isinstance(tup, Agg) else ([] if tup is UNIT else [tup])
     return it.call_value(f, args)
